@@ -111,5 +111,6 @@ let () =
       let kind = (match k with "artifact" -> KArtifact | "index" -> KIndex | _ -> KImage) in
       Printf.printf "%s D %d\n" id (int_of_n (referrer_art kind (n_of_int (int_of_string a)) (n_of_int (int_of_string c))))
     | [id; "E"; n] -> Printf.printf "%s E %s\n" id n
+    | [id; "S"; n] -> Printf.printf "%s S %s\n" id n
     | [] -> ()
     | _ -> Printf.printf "BADLINE %s\n" l)
